@@ -109,16 +109,19 @@ PROPS["C12"] = {
              "input.NewPlain(d).Handle(scripted reader); Listener.HandleConn over net.Pipe wrapped in input.NewTimeoutConn; Listener.HandleData "
              "per datagram; consumeAMQP through the verif-tagged delivery setter (bodies with lines <= 4096 bytes incl. terminator). Oracle: "
              "reference split (cut at LF, strip one trailing CR, keep a final unterminated piece); dispatcher arguments copied at call time must "
-             "equal the reference's non-empty lines, in order, each once. Non-trivial: >=2 lines and >=1 cut strictly inside a line (datagram / "
+             "equal the reference's non-empty lines, in order, each once. interleaved_streams: 2-3 chunked streams fed CONCURRENTLY to ONE "
+             "input.Plain (as the listener does with its connections and datagrams) through channel-gated readers; the harness draws the "
+             "schedule (which stream gets its next chunk; a chunk is fully consumed before the next grant); every stream's lines must come "
+             "out exactly as its own reference split, no line may mix bytes of two streams. Non-trivial: >=2 lines and >=1 cut strictly inside a line (datagram / "
              "AMQP: >=2 lines over >=1 message). Distinct = hash(stream, cuts, end mode)."),
     "level_text": "Generated streams x segmentations (exhaustive cut positions for short streams) against a reference line splitter at all four entry points; holds on everything generated.",
     "level_note": "Lines longer than the supported limits (64 KiB incl. terminator on TCP/UDP, 4096 bytes incl. terminator on AMQP) are outside the generated domain; empty lines may be dispatched or skipped.",
     "technique": "property-based testing (rapid): reference-model oracle + metamorphic invariance under segmentation; native go fuzz target in the thorough tier",
     "assumptions": ["net.Pipe stands in for a TCP connection (real sockets are used by C05-C07)"],
-    "quick": [R("TestPropPlainChunking", 3000), R("TestPropListenerConn", 600), R("TestPropListenerDatagram", 2000), R("TestPropAMQPBodies", 1500)],
+    "quick": [R("TestPropPlainChunking", 3000), R("TestPropListenerConn", 600), R("TestPropListenerDatagram", 2000), R("TestPropAMQPBodies", 1500), R("TestPropInterleavedStreams", 3000)],
     "thorough": [R("TestPropPlainChunking", 40000, shards=8, timeout=2400), R("TestPropListenerConn", 6000, shards=3, timeout=2400),
                  R("TestPropListenerDatagram", 40000, shards=2, timeout=2400), R("TestPropAMQPBodies", 20000, shards=2, timeout=2400),
-                 F("FuzzPlainChunking", "120s")],
+                 R("TestPropInterleavedStreams", 40000, shards=2, timeout=2400), F("FuzzPlainChunking", "120s")],
 }
 
 PROPS["C13"] = {
